@@ -6,6 +6,9 @@ DHF = r'tlx::DAryHeap<unsigned int, %du, (std::less<unsigned int>|PrioCmp) ?>::'
 LABEL = 'bounded: heap size <= %d, key universe %d; all histories by induction over operations'
 
 
+MODE = 'assert'
+
+
 def H(name, op, enforce, fns, arity, prio, addr, extra=(), unwind=10, timeout=900, tier='quick', what=''):
     nmax, hmax = (5, 6) if tier == 'quick' else (6, 8)
     pf = (AHF if addr else DHF) % arity
@@ -13,38 +16,53 @@ def H(name, op, enforce, fns, arity, prio, addr, extra=(), unwind=10, timeout=90
     return Job(name='%s_%s_%s' % ('ah' if addr else 'dh', name, cfg), shim='dheap', contract='c13_dheap.c', harness='h_' + name, enforce=[enforce],
                shim_defines=['ARITY=%d' % arity, 'CMP_PRIO=%d' % prio],
                defines=['OP_' + op, 'ARITY=%d' % arity, 'CMP_PRIO=%d' % prio, 'NMAX=%d' % nmax, 'HMAX=%d' % hmax] + (['ADDRESSABLE'] if addr else []) + list(extra), object_bits=10,
-               functions=[pf + f for f in fns], unwind=unwind, timeout=timeout, tier=tier, label=LABEL % (nmax, hmax), what=what)
+               functions=[pf + f for f in fns], unwind=unwind, timeout=timeout, tier=tier, mode=MODE,
+               resolve={'OPT_CHECKLEN': r'^std::vector<unsigned int, std::allocator<unsigned int> ?>::_M_check_len\(', 'OPT_ALLOCCOPY': r'^unsigned int\* std::vector<unsigned int, std::allocator<unsigned int> ?>::_M_allocate_and_copy<'},
+               replace_calls=[('OPT_CHECKLEN', 'stub_no_realloc_len'), ('OPT_ALLOCCOPY', 'stub_no_realloc_copy')], label=LABEL % (nmax, hmax), what=what)
 
 
 def jobs(tier):
     js = []
     cfgs = [(2, 0, 'quick'), (3, 1, 'quick'), (1, 0, 'thorough'), (4, 0, 'thorough'), (8, 0, 'thorough'), (2, 1, 'thorough'), (3, 0, 'thorough')]
+    VEC = r'std::vector<unsigned int, std::allocator<unsigned int> ?>'
     for ar, prio, t in cfgs:
+        nmax, hmax = (5, 6) if t == 'quick' else (6, 8)
         def A(name, op, enforce, fns, extra=(), **kw):
             js.append(H(name, op, enforce, fns, ar, prio, 1, extra, tier=t, **kw))
         def D(name, op, enforce, fns, extra=(), **kw):
             js.append(H(name, op, enforce, fns, ar, prio, 0, extra, tier=t, **kw))
-        A('push', 'push', 'c_push', [r'push\(unsigned int const&\)', r'sift_up'], ['MOVE=0'], what='push(const&): invariant, size+1, membership = old + {k}, top minimal')
-        A('push_move', 'push', 'c_push', [r'push\(unsigned int&&\)'], ['MOVE=1'], what='push(&&)')
+        # operations that can grow a vector: one job per (heap size, handles size) so that sizes are constants
+        for n in range(0, nmax):
+            for hs in (hmax, 2):
+                if hs < n: continue
+                sz = ['FIX_N=%d' % n, 'FIX_HS=%d' % hs]; tag = '_n%d_h%d' % (n, hs)
+                A('push' + tag, 'push', 'c_push', [r'push\(unsigned int const&\)', r'sift_up'], ['MOVE=0'] + sz, what='push(const&), heap size %d, handles size %d: invariant, membership = old + {k}, top minimal' % (n, hs))
+                A('push_move' + tag, 'push', 'c_push', [r'push\(unsigned int&&\)'], ['MOVE=1'] + sz, what='push(&&), heap size %d, handles size %d' % (n, hs))
+                A('update_absent' + tag, 'update_absent', 'c_update_absent', [r'update\(unsigned int\)'], sz, what='update(k) of an absent key adds it, heap size %d, handles size %d' % (n, hs))
+            D('push_n%d' % n, 'push', 'c_push', [r'push\(unsigned int const&\)', r'sift_up'], ['MOVE=0', 'FIX_N=%d' % n], what='DAryHeap push(const&), heap size %d' % n)
+            D('push_move_n%d' % n, 'push', 'c_push', [r'push\(unsigned int&&\)'], ['MOVE=1', 'FIX_N=%d' % n], what='DAryHeap push(&&), heap size %d' % n)
+        for n in range(0, nmax + 1):
+            sz = ['FIX_N=%d' % n, 'FIX_HS=%d' % hmax]
+            A('update_all_n%d' % n, 'update_all', 'c_update_all', [r'update_all\(\)', r'heapify\(\)'], sz, what='update_all() after arbitrary priority changes, heap size %d' % n)
+            D('update_all_n%d' % n, 'update_all', 'c_update_all', [r'update_all\(\)', r'heapify\(\)'], ['FIX_N=%d' % n], what='DAryHeap update_all(), heap size %d' % n)
+        # build_heap: one job per number of keys m, on an empty heap and on a heap of 3 keys
+        # build_heap(first, last) and build_heap(const vector&) go through libstdc++'s vector::assign / resize, whose symbolic
+        # paths exhaust the solver's memory even at fixed sizes: NOT DECIDED; the rvalue overload shares heapify() with them
+        for k, nm, fn in [(2, 'move', r'build_heap\(' + VEC + r'&&\)')]:
+            for m in range(0, nmax + 1):
+                A('build_%s_empty_m%d' % (nm, m), 'build', 'c_build', [fn], ['KIND=%d' % k, 'FROM_EMPTY', 'FIX_N=0', 'FIX_HS=%d' % hmax, 'FIX_M=%d' % m], unwind=12, what='build_heap (%s) of %d keys on an empty heap: exactly the given keys' % (nm, m))
+                A('build_%s_used_m%d' % (nm, m), 'build', 'c_build', [fn], ['KIND=%d' % k, 'FIX_N=3', 'FIX_HS=%d' % hmax, 'FIX_M=%d' % m], unwind=12, what='build_heap (%s) of %d keys on a heap that holds 3 keys: exactly the given keys, no stale membership' % (nm, m))
+                D('build_%s_m%d' % (nm, m), 'build', 'c_build', [fn], ['KIND=%d' % k, 'FIX_N=3', 'FIX_M=%d' % m], unwind=12, what='DAryHeap build_heap (%s) of %d keys' % (nm, m))
+        # operations that never grow a vector: symbolic sizes
         A('remove', 'remove', 'c_remove', [r'remove\(unsigned int\)', r'sift_down'], ['KIND=0'], what='remove(k) of an arbitrary present key (incl. the last slot)')
         A('pop', 'remove', 'c_remove', [r'pop\(\)'], ['KIND=1'], what='pop()')
         A('extract_top', 'remove', 'c_remove', [r'extract_top\(\)'], ['KIND=2'], what='extract_top() returns and removes the top')
         if prio:
             A('update', 'update', 'c_update', [r'update\(unsigned int\)'], what='update(k) after the priority of k changed arbitrarily')
-        A('update_absent', 'update_absent', 'c_update_absent', [r'update\(unsigned int\)'], what='update(k) of an absent key adds it')
-        A('update_all', 'update_all', 'c_update_all', [r'update_all\(\)', r'heapify\(\)'], what='update_all() after arbitrary priority changes')
-        for k, nm, fn in [(0, 'range', r'build_heap<unsigned int const\*>'), (1, 'copy', r'build_heap\(std::vector<unsigned int, std::allocator<unsigned int> ?> const&\)'), (2, 'move', r'build_heap\(std::vector<unsigned int, std::allocator<unsigned int> ?>&&\)')]:
-            A('build_%s_empty' % nm, 'build', 'c_build', [fn], ['KIND=%d' % k, 'FROM_EMPTY'], unwind=12, timeout=900, what='build_heap (%s) on an empty heap: exactly the given keys' % nm)
-            A('build_%s' % nm, 'build', 'c_build', [fn], ['KIND=%d' % k], unwind=12, timeout=900, what='build_heap (%s) on ANY heap: exactly the given keys, no stale membership' % nm)
         A('clear', 'clear', 'c_clear', [r'clear\(\)'], what='clear(): empty, no key contained')
         A('observe', 'observe', 'c_observe', [r'contains\(unsigned int\) const', r'size\(\) const', r'empty\(\) const', r'top\(\) const'], what='contains/size/empty/top; frame empty')
-        D('push', 'push', 'c_push', [r'push\(unsigned int const&\)', r'sift_up'], ['MOVE=0'], what='DAryHeap push(const&): multiset + order')
-        D('push_move', 'push', 'c_push', [r'push\(unsigned int&&\)'], ['MOVE=1'], what='DAryHeap push(&&)')
         D('pop', 'pop', 'c_pop', [r'pop\(\)', r'sift_down'], ['KIND=1'], what='DAryHeap pop()')
         D('extract_top', 'pop', 'c_pop', [r'extract_top\(\)'], ['KIND=2'], what='DAryHeap extract_top()')
-        D('update_all', 'update_all', 'c_update_all', [r'update_all\(\)', r'heapify\(\)'], what='DAryHeap update_all()')
-        for k, nm, fn in [(0, 'range', r'build_heap<unsigned int const\*>'), (1, 'copy', r'build_heap\(std::vector<unsigned int, std::allocator<unsigned int> ?> const&\)'), (2, 'move', r'build_heap\(std::vector<unsigned int, std::allocator<unsigned int> ?>&&\)')]:
-            D('build_' + nm, 'build', 'c_build', [fn], ['KIND=%d' % k], unwind=12, timeout=900, what='DAryHeap build_heap (%s)' % nm)
         D('observe', 'observe', 'c_observe', [r'size\(\) const', r'empty\(\) const', r'top\(\) const'], what='DAryHeap size/empty/top')
         D('clear', 'clear', 'c_clear', [r'clear\(\)'], what='DAryHeap clear()')
     return js
@@ -54,6 +72,6 @@ META = {
     'level': 'other',
     'assumptions': ['key type uint32_t; comparators std::less and a comparator reading a symbolic external priority table',
                     'induction over the operation history is the stated composition step'],
-    'not_decided': ['heaps larger than 6 elements', 'sanity_check() (std::queue internals) and RadixHeap container operations are not under contract in this version'],
-    'explanation': 'every heap operation enforced from an arbitrary well-formed heap; membership by ghost key, multiset by ghost value',
+    'not_decided': ['heaps larger than 5 (quick) / 6 (thorough) elements', 'build_heap(first, last) and build_heap(const std::vector&): libstdc++ assign/resize paths exhaust solver memory (the rvalue overload, which shares heapify(), is covered)', 'std::vector growth beyond the capacity provided by the harness (reallocation entry points are replaced by stubs that fail when reached)', 'sanity_check() (std::queue internals) and RadixHeap container operations are not under contract in this version'],
+    'explanation': 'every heap operation enforced from an arbitrary well-formed heap; membership by ghost key, multiset by ghost value; growing operations one job per size',
 }
